@@ -64,9 +64,21 @@ def same(tname, a, b):
     return same_value(tname, a, b)
 
 
+def drained(device, rounds=1000):
+    """the simulator purges a connection's forward-open entries when its thread notices the end of the TCP session: wait for that
+    (generously: 10 s is a watchdog for "never", not a performance requirement)"""
+    import time
+    for _ in range(rounds):
+        if not device.Connection_Manager.forwards:
+            return True
+        time.sleep(0.01)
+    return False
+
+
 def pylogix_session(ctx, sim, cfg, model, rng, ncalls):
     import pylogix
     from cpppo.server.enip import device
+    drained(device)         # entries of the previous (closed) session may still be on their way out
     wit = {'config': cfg, 'calls': []}
     tmap = {e[0]: e for e in cfg}
     comm = pylogix.PLC()
@@ -200,11 +212,7 @@ def pylogix_session(ctx, sim, cfg, model, rng, ncalls):
             ctx.sample({'pylogix_calls': [repr(c)[:80] for c in wit['calls'][:5]], 'config': [(e[0], e[1], e[2]) for e in cfg]})
     finally:
         comm.Close()
-    import time
-    for _ in range(100):
-        if not device.Connection_Manager.forwards:
-            break
-        time.sleep(0.01)
+    drained(device, 1000)
     ctx.count('pylogix:forward-close-seen')
     if device.Connection_Manager.forwards:
         ctx.violation('forward-open-table-wrong', 'forward-open entries remain after the client closed: %r' % list(device.Connection_Manager.forwards), wit)
@@ -301,6 +309,9 @@ def two_originators(ctx, sim, cfg, model, rng):
     from cpppo.server.enip import device
     wit = {'config': cfg, 'two_originators': True}
     triplet = {'connection_serial': rng.randrange(65536), 'O_vendor': 0x1337, 'O_serial': 42}
+    if not drained(device):
+        ctx.inconclusive_because('forward-open entries of earlier, closed sessions still present after 10 s')
+        return
     clients, conns = [], []
     try:
         for k in range(2):
